@@ -245,7 +245,7 @@ def rule_split_agreement(ck: Check, rule: str) -> None:
                         "uses transactions[0] but never transactions[1:] — the non-reward transactions are not processed here", "")
     # (the floor is on functions, not occurrences: slicing once into a local name and using it thrice is the same split)
     ck.stats["transactions subscripts"] = n
-    ck.expect_count(rule, "functions that split a .transactions list at a constant", n_funcs, 5)
+    ck.expect_count(rule, "functions that split a .transactions list at a constant", n_funcs, 3)
 
 
 # --------------------------------------------------------------------------- R01.9 effect freedom
